@@ -1114,6 +1114,14 @@ void QuadraticModelBase<bias_type, index_type>::substitute_variable(index_type v
 
     if (has_adj()) {
         for (auto& term : (*adj_ptr_)[v]) {
+            if (term.v == v) {
+                // self-loop: b*(m*y + c)^2 = b*m*m*y*y + 2*b*m*c*y + b*c*c
+                offset_ += term.bias * offset * offset;
+                linear_biases_[v] += 2 * term.bias * multiplier * offset;
+                term.bias *= multiplier * multiplier;
+                continue;
+            }
+
             linear_biases_[term.v] += term.bias * offset;
 
             // the quadratic interactions
